@@ -67,25 +67,25 @@ def run(ctx):
         want = z3.And(*[D.iszero(x) for x in flat(a)])
         chk.must_unsat('%s.is_zero' % nm, z3.Xor(C.mk(iz), want), group='case-structure')
         # inverse (Fq12: layered over an abstract Fq6 below -- the monolithic degree is out of the solver's reach)
-        if nm == 'fq12' or (nm == 'fq6' and ctx.tier != 'thorough'):
-            continue
-        n0 = len(D.inv_facts)
-        st = State()
-        ra = ex.alloc(st, a)
-        r = ex.call(st, F + 'inverse', [ra])
-        if not (isinstance(r, Enum) and len(D.inv_facts) == n0 + 1):
-            raise Inconclusive('%s.inverse: expected exactly one leaf inversion, got %d' % (nm, len(D.inv_facts) - n0))
-        t, n = D.inv_facts[-1]
-        out = r.payload['Some'][0]
-        scaled = [x * (t * n) for x in flat(one)]
-        ident('%s.inverse: out*in = (t*N)*1' % nm, rmul(tolist(out), la), _reshape(scaled, one), 'ring-identity')
-        chk.must_unsat('%s.inverse: Some iff leaf norm invertible' % nm,
-                       z3.Xor(r.disc == 1, z3.Not(D.iszero(n))), group='case-structure')
-        # the norm handed to the leaf vanishes at 0 (so inverse(0) = None) -- concrete run
-        st = State()
-        rz = ex.alloc(st, _const_like(a, 0))
-        r0 = ex.call(st, F + 'inverse', [rz])
-        chk.ground('%s.inverse(0) is None' % nm, isinstance(r0, Enum) and r0.disc == 0, repr(r0)[:80])
+        # (Fq6 flattened over Fq was tried in the thorough tier: no verdict in 1200 s; the layered form below decides it)
+        if nm == 'fq2':
+            n0 = len(D.inv_facts)
+            st = State()
+            ra = ex.alloc(st, a)
+            r = ex.call(st, F + 'inverse', [ra])
+            if not (isinstance(r, Enum) and len(D.inv_facts) == n0 + 1):
+                raise Inconclusive('%s.inverse: expected exactly one leaf inversion, got %d' % (nm, len(D.inv_facts) - n0))
+            t, n = D.inv_facts[-1]
+            out = r.payload['Some'][0]
+            scaled = [x * (t * n) for x in flat(one)]
+            ident('%s.inverse: out*in = (t*N)*1' % nm, rmul(tolist(out), la), _reshape(scaled, one), 'ring-identity')
+            chk.must_unsat('%s.inverse: Some iff leaf norm invertible' % nm,
+                           z3.Xor(r.disc == 1, z3.Not(D.iszero(n))), group='case-structure')
+            # the norm handed to the leaf vanishes at 0 (so inverse(0) = None) -- concrete run
+            st = State()
+            rz = ex.alloc(st, _const_like(a, 0))
+            r0 = ex.call(st, F + 'inverse', [rz])
+            chk.ground('%s.inverse(0) is None' % nm, isinstance(r0, Enum) and r0.disc == 0, repr(r0)[:80])
         # derived PartialEq
         st = State()
         ra, rb = ex.alloc(st, a), ex.alloc(st, b)
